@@ -17,6 +17,7 @@ import (
 	"os"
 	"sort"
 	"strings"
+	"sync"
 	"sync/atomic"
 	"time"
 
@@ -63,6 +64,57 @@ type sys struct {
 }
 
 var inconclusive atomic.Int64
+
+type pend struct {
+	sc   scenario
+	hist []string
+}
+
+var (
+	pendMu  sync.Mutex
+	pending []pend
+)
+
+// confirmPending re-runs, one at a time and after all explorers have finished, every
+// history whose nodes did not agree within the limit. Only a history that fails to
+// converge again - on an otherwise idle process, with a 90 s limit - is reported.
+func confirmPending(r *vk.Run) {
+	seen := map[string]bool{}
+	for _, p := range pending {
+		key := p.sc.name + "|" + strings.Join(p.hist, ";")
+		if seen[key] {
+			continue
+		}
+		seen[key] = true
+		if len(seen) > 12 {
+			inconclusive.Add(1)
+			continue
+		}
+		c, err := newSysMode(p.sc, true)
+		if err != nil {
+			inconclusive.Add(1)
+			continue
+		}
+		cs := c.(*sys)
+		var verr error
+		for _, op := range p.hist {
+			if _, verr = cs.Apply(op); verr != nil {
+				break
+			}
+		}
+		if verr == nil {
+			verr = cs.Check()
+		}
+		cs.Close()
+		var v *vk.Violation
+		if errors.As(verr, &v) {
+			v.Scenario, v.Trace = p.sc.name, p.hist
+			r.Report(v)
+		} else {
+			inconclusive.Add(1)
+		}
+	}
+}
 
 func newSys(sc scenario) (seqx.Sys, error) { return newSysMode(sc, false) }
 
@@ -632,22 +684,11 @@ func (s *sys) Check() error {
 	}
 	views, same := s.converge()
 	if !same && !s.confirm {
-		c, err := newSysMode(s.sc, true)
-		if err != nil {
-			return err
-		}
-		defer c.(*sys).Close()
-		cs := c.(*sys)
-		for _, op := range s.hist[len(s.sc.seed):] {
-			if _, err := cs.Apply(op); err != nil {
-				return err // a judged violation reproduced on the confirmation instance
-			}
-		}
-		if err := cs.Check(); err != nil {
-			return err
-		}
-		inconclusive.Add(1)
-		return nil // slow gossip on a loaded machine, not a property of the code
+		// judged after the exploration, alone on the machine's cores (see confirmPending)
+		pendMu.Lock()
+		pending = append(pending, pend{s.sc, append([]string{}, s.hist[len(s.sc.seed):]...)})
+		pendMu.Unlock()
+		return nil
 	}
 	if !same && s.stale != "" {
 		return vk.Violationf(s.fpPrefix()+"name-lookup-misses-channel:after-"+s.lastOp,
@@ -800,6 +841,9 @@ func (s *sys) Canon() string {
 
 func main() {
 	gomega.RegisterFailHandler(func(m string, _ ...int) { panic("gomega: " + m) })
+	// the mock cluster waits for its topology with gomega.Eventually (default 1 s)
+	gomega.SetDefaultEventuallyTimeout(120 * time.Second)
+	gomega.SetDefaultEventuallyPollingInterval(5 * time.Millisecond)
 	r := vk.New("C15", "model_checking")
 	// this harness bounds every call of the code under test with its own limits (and confirms
 	// a miss on a dedicated re-run), so the supervisor's stall watchdog only has to see that
@@ -871,6 +915,7 @@ func main() {
 		cfg.Deadline = time.Now().Add(r.Left() / time.Duration(len(scs)-i))
 		seqx.Merge(r, seqx.Explore(r, cfg))
 	}
+	confirmPending(r)
 	r.Set("convergence_waits_inconclusive", int(inconclusive.Load()))
 	if inconclusive.Load() > 0 {
 		r.Set("exhaustive", false) // states whose judgement was left open by slow gossip
